@@ -455,6 +455,27 @@ fn run_solve(kv: &HashMap<String, String>) -> String {
                     Err(_) => out.push_str(&format!("sol {} outofrange\n", hx(*q))),
                 }
             }
+            // sol_many: the queries sol() answers, in the given and in the reversed order, and the whole list
+            let okq: Vec<f64> = query.iter().cloned().filter(|q| sol.sol(*q).is_ok()).collect();
+            let rev: Vec<f64> = okq.iter().rev().cloned().collect();
+            for (tag, list, each) in [("f", &okq, true), ("r", &rev, true), ("a", &query, false)] {
+                match sol.sol_many(list) {
+                    Ok(vs) => {
+                        if each {
+                            for (t, v) in list.iter().zip(vs.iter()) {
+                                out.push_str(&format!("solm {} {} ok {}\n", tag, hx(*t), hxlist(v)));
+                            }
+                        } else {
+                            out.push_str(&format!("solm {} ok {}\n", tag, vs.len()));
+                        }
+                    }
+                    Err(Error::Interpolation(InterpolationError::NotEnabled)) => out.push_str(&format!("solm {} notenabled\n", tag)),
+                    Err(Error::Interpolation(InterpolationError::OutOfRange { t, .. })) => {
+                        out.push_str(&format!("solm {} outofrange {}\n", tag, hx(t)))
+                    }
+                    Err(_) => out.push_str(&format!("solm {} error\n", tag)),
+                }
+            }
         }
     }
     out
